@@ -22,7 +22,7 @@ STEP_BASE = 5000
 STEP_PER_BYTE = 400
 RSS_LIMIT_KB = 256 * 1024
 BATCH = 24
-LONG_BATCH = 120
+LONG_BATCH = 240
 SHARD = 240
 
 # populated by prepare() in the coordinator before any worker is forked
@@ -189,6 +189,24 @@ def _snapshot(d):
     return out
 
 
+def _clean_dir(d):
+    try:
+        names = os.listdir(d)
+    except OSError:
+        return
+    for n in names:
+        p = os.path.join(d, n)
+        try:
+            if os.path.isdir(p) and not os.path.islink(p):
+                import shutil
+
+                shutil.rmtree(p, ignore_errors=True)
+            else:
+                os.unlink(p)
+        except OSError:
+            pass
+
+
 def _maxrss_kb():
     import resource
 
@@ -209,6 +227,7 @@ def exec_image(image, name, fast_load, get_code, count_steps, tag="r", kind="fil
     """
     d = os.path.join(W["rundir"], "%s-%d" % (tag, os.getpid()))
     os.makedirs(d, exist_ok=True)
+    _clean_dir(d)  # a previous run cut short by the wall guard may have left its storage object behind
     path = os.path.join(d, name)
     if kind == "dir":
         os.mkdir(path)
@@ -336,6 +355,7 @@ def _compact(plan, rec):
 CPU_BUDGET_S = 12   # CPU seconds one load of a <= 64 KiB file may burn (typical: milliseconds)
 BATCH_CPU_GUARD_S = 4
 WALL_GUARD_S = 3.0
+SEQ = {"n": 0}
 SLOW = {"seen": 0}  # per worker process: confirmed slow runs so far (only steers cost, never a verdict)
 
 
@@ -347,7 +367,7 @@ def _on_alarm(signum, frame):
     raise _WallGuard()
 
 
-NOFILE_SOFT = 64
+NOFILE_SPARE = 10
 
 
 def _small_fd_table():
@@ -357,7 +377,12 @@ def _small_fd_table():
         import resource
 
         soft, hard = resource.getrlimit(resource.RLIMIT_NOFILE)
-        resource.setrlimit(resource.RLIMIT_NOFILE, (min(NOFILE_SOFT, soft), hard))
+        try:
+            highest = max(int(x) for x in os.listdir("/proc/self/fd")) + 1
+        except Exception:
+            highest = 40
+        # the limit is on the highest descriptor NUMBER: leave room for NOFILE_SPARE more than are open now
+        resource.setrlimit(resource.RLIMIT_NOFILE, (min(highest + NOFILE_SPARE, soft), hard))
     except Exception:
         pass
 
@@ -389,18 +414,57 @@ def _batch_child(emit, indices, force_steps=False):
                    "exc": None}
             sys.settrace(None)
             audit.disarm()
+        except OSError as e:
+            rec = _harness_oserror(e)
         finally:
             signal.setitimer(signal.ITIMER_REAL, 0)
         emit(_compact(p, rec))
     return len(indices)
 
 
+def _harness_oserror(e):
+    """The simulator's own file handling failed.  EMFILE/ENFILE under the small descriptor table means earlier
+    loads in this process left descriptors open: that is a finding about them, not a harness failure."""
+    import errno
+
+    sys.settrace(None)
+    audit.disarm()
+    full = e.errno in (errno.EMFILE, errno.ENFILE)
+    if not full:
+        # any other failure of the harness's own file handling may be a knock-on effect of a full table
+        # (e.g. it could not list and clean its run directory): probe the table directly
+        try:
+            os.close(os.open(os.devnull, os.O_RDONLY))
+        except OSError as e2:
+            full = e2.errno in (errno.EMFILE, errno.ENFILE)
+    if full:
+        nfd = -1
+        return {"outcome": "fd_exhaustion", "site": None, "steps": None, "fast_path": False, "exc": None,
+                "violation": {"class": "fd_exhaustion",
+                              "detail": "descriptor table full (%s descriptors open) after earlier loads" % nfd}}
+    raise e
+
+
 def _sequence_child(emit, items):
     """several stored images loaded one after the other in ONE process (items: explicit images)"""
+    import signal
+
     _small_fd_table()
+    signal.signal(signal.SIGALRM, _on_alarm)
     for k, it in enumerate(items):
-        rec = exec_image(core.unb64(it["image_b64"]), it["name"], it["fast_load"], it["get_code"],
-                         bool(it.get("count_steps")), tag="q", kind=it.get("kind", "file"))
+        signal.setitimer(signal.ITIMER_REAL, WALL_GUARD_S if k < len(items) - 1 else 4 * WALL_GUARD_S)
+        try:
+            rec = exec_image(core.unb64(it["image_b64"]), it["name"], it["fast_load"], it["get_code"],
+                             bool(it.get("count_steps")), tag="q", kind=it.get("kind", "file"))
+        except _WallGuard:
+            # a load that blocks (e.g. on a FIFO) must not hold up the sequence; for the LAST item it is the verdict
+            sys.settrace(None)
+            audit.disarm()
+            rec = {"outcome": "stall", "site": None, "violation": {"class": "stall", "site": None} if k == len(items) - 1 else None}
+        except OSError as e:
+            rec = _harness_oserror(e)
+        finally:
+            signal.setitimer(signal.ITIMER_REAL, 0)
         emit({"k": k, "o": rec["outcome"], "v": rec["violation"], "s": rec.get("site")})
     return len(items)
 
@@ -548,7 +612,7 @@ def run_shard(shard):
         # faulted host-magic images go alone: only C marshal can corrupt the process
         batch = []
         singles = []
-        # one shard in eight is a long-lived loader process (120 loads) under the small descriptor table
+        # one shard in eight is a long-lived loader process (240 loads) under the small descriptor table
         bsize = LONG_BATCH if (lo // SHARD) % 8 == 3 else BATCH
         while pending and len(batch) < bsize:
             i = pending.pop(0)
@@ -627,7 +691,11 @@ def _sequence_verdict(agg, batch, culprit, c2, why):
     """A run misbehaved inside its batch but is clean alone: the loads that preceded it in the same process
     matter.  Re-execute that prefix in a fresh fork; if the last load misbehaves again this is a genuine
     multi-step violation (state leaked between calls), otherwise a harness anomaly."""
-    prefix = [i for i in batch if i <= culprit] if culprit in batch else [culprit]
+    SEQ["n"] += 1
+    if SEQ["n"] > 4:
+        # enough sequences re-executed by this worker: further batch-only failures are counted, not re-run
+        _probe(agg, "batch-only failure not re-executed as a sequence (per-worker cap)")
+        return c2
     prefix = batch[:batch.index(culprit) + 1] if culprit in batch else [culprit]
     items = [_item_of(plan_run(i)) for i in prefix]
     v = run_sequence(items)
